@@ -8,10 +8,10 @@ PID = "C17"
 MANIFEST_ENTRY = {
  "level_claimed": {
   "category": "proof",
-  "text": "Theorems in coq/Properties/C17.v about the runtime model Model/Machine.v: for every state, one Resolve step whose identifier is found in the current input value pushes that value without calling the host (C17_resolve_op_found), otherwise calls the host's resolve exactly once with that symbol and pushes its answer or unit (C17_resolve_op); Apply with an external on the left calls the host's apply exactly once with the external's number and the argument and pushes its answer or unit (C17_external_op); for every program of C01's proved fragment (stages 1-3) the machine's observable host trace and final host state equal the reference evaluator's (C17_program). Every run re-ties model and evaluator to /repo: generated programs with identifiers and external applications at every operand position are executed by the real pipeline under scripted recording hosts that resolve none / some / all symbols (resolve on both data implementations, external apply on BasicGarnishData), and kind, symbol or external number, argument tree, order and count of every call plus the final value are compared with the runtime model and with the evaluator.",
+  "text": "Theorems in coq/Properties/C17.v about the runtime model Model/Machine.v: for every state, one Resolve step whose identifier is found in the current input value pushes that value without calling the host (C17_resolve_op_found), otherwise calls the host's resolve exactly once with that symbol and pushes its answer or unit (C17_resolve_op); Apply with an external on the left calls the host's apply exactly once with the external's number and the argument and pushes its answer or unit (C17_external_op); for every printable program of the core grammar outside C01's known-finding classes - every construct, including nested expressions, apply forms and `^~` loops (C01 stages 1-4, nested expressions labelled with their jump indices) - the machine's observable host trace and final host state equal the reference evaluator's (C17_program). Every run re-ties model and evaluator to /repo: generated programs with identifiers and external applications at every operand position are executed by the real pipeline under scripted recording hosts that resolve none / some / all symbols (resolve on both data implementations, external apply on BasicGarnishData), and kind, symbol or external number, argument tree, order and count of every call plus the final value are compared with the runtime model and with the evaluator.",
   "design_ref": "DESIGN.md section 8 C17"
  },
- "level_note": "Trusted: Coq kernel; Flocq's standard-library axioms (through Model/Num.v); extraction; harness/src/bin/exec.rs (the scripted host: SimpleGarnishData::set_resolver / auxiliary data, BasicDataCompanion), ocaml/exec_driver.ml, tools/execlib.py. C17_program covers the fragment without nested expressions/apply/`^~`; identifiers inside nested expressions, loops and external applies are covered by the correspondence and the direct oracle only. SimpleGarnishData has no apply hook (externals apply to unit there, observed and accepted per DESIGN A.5). Known findings C01-K1 / C01-K2 affect what is evaluated after them and are excluded.",
+ "level_note": "Trusted: Coq kernel; Flocq's standard-library axioms (through Model/Num.v); extraction; harness/src/bin/exec.rs (the scripted host: SimpleGarnishData::set_resolver / auxiliary data, BasicDataCompanion), ocaml/exec_driver.ml, tools/execlib.py. SimpleGarnishData has no apply hook (externals apply to unit there, observed and accepted per DESIGN A.5). Known findings C01-K1 / C01-K2 affect what is evaluated after them and are excluded.",
  "technique": "Coq proof over the executable runtime model + forward simulation from the reference evaluator + differential correspondence of every host call with the Rust runtime on both data implementations"
 }
 
